@@ -40,6 +40,12 @@ class Ctx:
         self.reset()
 
     def reset(self):
+        # a fresh z3 context per work item: solver behaviour (term ids, variable orders) then does
+        # not depend on which items the same worker process handled before
+        try:
+            z3.z3._main_ctx = None
+        except AttributeError:
+            pass
         self.assumptions = []   # z3 BoolRefs assumed for the whole work item
         self.axioms = []        # true instances about UF applications (also asserted in the solver)
         self.path = []          # path condition of the current run
@@ -175,8 +181,11 @@ class Ctx:
             s.add(e)
         t0 = time.time()
         r = s.check()
-        self.solver_time += time.time() - t0
+        dt = time.time() - t0
+        self.solver_time += dt
         self.nqueries += 1
+        if dt > 1.0 and len(self.log) < 20:
+            self.log.append(f"slow path query {dt:.1f}s -> {r}: {[e.sexpr()[:200] for e in extra]}")
         s.pop()
         return str(r)
 
